@@ -569,10 +569,13 @@ package parser
 //@   ensures [lt] old(p.current.Type) != TokenEOF ==> MuLt(p)
 //@   modifies p.current, p.errors, p.defaultYear, p.lexer.pos, p.lexer.column, p.lexer.line, p.lexer.atStart
 
+// PLine: a posting starts on a line of the input (AST well-formedness that the formatter and the range builders rely on).
+//@ pred PLine(po, n) := po.Range.Start.Line >= 1 && po.Range.Start.Line <= n + 1
 //@ func (*Parser).parsePosting
 //@   props C06
 //@   requires ParInv(p)
 //@   ensures [inv] ParInv(p) && PFrame(p) && MuLe(p)
+//@   ensures [posting_line] result != nil ==> PLine(result, len(p.lexer.input))
 //@   ensures [lt] old(p.current.Type) == TokenIndent ==> MuLt(p)
 //@   modifies p.current, p.errors, p.defaultYear, p.lexer.pos, p.lexer.column, p.lexer.line, p.lexer.atStart
 
@@ -580,10 +583,13 @@ package parser
 //@   props C06 C08
 //@   requires ParInv(p) && p.current.Type == TokenDate
 //@   ensures [inv] ParInv(p) && PFrame(p) && MuLe(p)
+//@   ensures [posting_lines] result != nil ==> (forall k int :: {result.Postings[k]} 0 <= k && k < len(result.Postings) ==> PLine(result.Postings[k], len(p.lexer.input)))
 //@   ensures [C08:description_pos] result != nil ==> (result.DescriptionPos.Line == 0 && result.DescriptionPos.Column == 0) || PosOK(p.lexer.input, result.DescriptionPos)
 //@   ensures [lt] MuLt(p)
 //@   modifies p.current, p.errors, p.defaultYear, p.lexer.pos, p.lexer.column, p.lexer.line, p.lexer.atStart
 //@   loop 1 invariant ParInv(p) && PFrame(p) && MuLt(p)
+//@   loop 1 invariant tx != nil && fresh(tx) && (len(tx.Postings) == 0 || fresh(tx.Postings))
+//@   loop 1 invariant forall k int :: {tx.Postings[k]} 0 <= k && k < len(tx.Postings) ==> PLine(tx.Postings[k], len(p.lexer.input))
 //@   loop 1 decreases 2 * (len(p.lexer.input) - p.lexer.pos) + ite(p.current.Type != TokenEOF, 1, 0)
 
 //@ func (*Parser).parseJournal
@@ -591,8 +597,10 @@ package parser
 //@   requires ParInv(p)
 //@   ensures [inv] ParInv(p) && PFrame(p) && p.current.Type == TokenEOF
 //@   ensures [nonnil] result != nil && fresh(result)
+//@   ensures [posting_lines] forall i int, k int :: {result.Transactions[i].Postings[k]} 0 <= i && i < len(result.Transactions) && 0 <= k && k < len(result.Transactions[i].Postings) ==> PLine(result.Transactions[i].Postings[k], len(p.lexer.input))
 //@   modifies p.current, p.errors, p.defaultYear, p.lexer.pos, p.lexer.column, p.lexer.line, p.lexer.atStart
 //@   loop 1 invariant ParInv(p) && PFrame(p) && journal != nil && fresh(journal)
+//@   loop 1 invariant forall i int, k int :: {journal.Transactions[i].Postings[k]} 0 <= i && i < len(journal.Transactions) && 0 <= k && k < len(journal.Transactions[i].Postings) ==> PLine(journal.Transactions[i].Postings[k], len(p.lexer.input))
 //@   loop 1 decreases 2 * (len(p.lexer.input) - p.lexer.pos) + ite(p.current.Type != TokenEOF, 1, 0)
 
 //@ func (*Parser).parseSubdirectives
@@ -664,4 +672,5 @@ package parser
 //@   props C06 C11
 //@   ghostdef [parsed_from] parsedFrom(result0) == input && nErrs(result0) == len(result1)
 //@   ensures [nonnil] result0 != nil && fresh(result0)
+//@   ensures [posting_lines] forall i int, k int :: {result0.Transactions[i].Postings[k]} 0 <= i && i < len(result0.Transactions) && 0 <= k && k < len(result0.Transactions[i].Postings) ==> PLine(result0.Transactions[i].Postings[k], len(input))
 //@   ensures [C08:errpos] forall k int :: {result1[k]} 0 <= k && k < len(result1) ==> PosIn(result1[k].Pos, len(input))
